@@ -11,7 +11,8 @@
   [reqIdMin, reqIdMax].  The model allocates internal ids 1, 2, 3, … (`nalloc`) and gives a
   request its *wire name* when it is first handed to a pipe: the k-th distinct request seen on
   the wire carries reqIdMin + k (`alias`).  The check renames the implementation's ids the same
-  way (first occurrence), so no absolute id is ever predicted.
+  way (first occurrence), so no absolute id is ever predicted; ids that never reached the wire
+  can be named relative to one that did (`resolveWire`).
 
   Retained request: handle = internal id.  `MsgObj` is ghost ownership state: the reference
   held by the context (`ctxRef`), references held by transports with a send in flight
@@ -149,9 +150,24 @@ def wireIndex (s : State) (iid : Nat) : State × Nat :=
 
 def wireHdr (k : Nat) : Bytes := beEncode 4 (idMin + k)
 
+/-- wire names of requests that never reached the wire.  nni_id_alloc hands out consecutive ids,
+    and so does the model (`nalloc`), so an id that was allocated but never transmitted is named
+    relative to one that was: `idMin + k + relBase * (relOff + d)` stands for
+    (internal id of the k-th request seen on the wire) + d, for -relOff < d < relOff, d ≠ 0.
+    (The check writes such replies with the real id at that distance from the one it observed.) -/
+def relBase : Nat := 65536
+def relOff : Nat := 128
+
 /-- nni_id_get on the id carried by a reply -/
 def resolveWire (s : State) (v : Nat) : Option Nat :=
-  if v < idMin then none else s.alias[v - idMin]?
+  if v < idMin then none
+  else
+    match s.alias[(v - idMin) % relBase]? with
+    | none => none
+    | some iid =>
+      let d := (v - idMin) / relBase
+      if d = 0 then some iid
+      else if iid + d ≥ relOff + 1 then some (iid + d - relOff) else none
 
 def unlist (s : State) (k : Nat) : Nat → Pipe :=
   fun q => { s.pipe q with ctxs := (s.pipe q).ctxs.erase k }
